@@ -231,6 +231,16 @@ func clAccounting(c *Ctx) {
 			c.Check(okFn && want == u.delta, fn, u.in, cnt.in(fn, "counter "+u.field+" "+u.delta+" by its owner"), "a structure counter is updated outside the frozen accounting table")
 		}
 	}
+	// the counting free is for nodes that were accounted in; the structure itself (a rejected
+	// insert releasing the caller's private node) uses the raw free
+	for _, s := range p.AllCallSites(freeNode) {
+		g := s.Parent()
+		if g.Package() == nil || g.Package().Pkg.Path() != modPath+"/skiplist" {
+			continue
+		}
+		c.Check(false, g, s, cnt.in(g, "package skiplist releases unaccounted nodes with the raw free"),
+			"a node that never entered the statistics (rejected insert) is released through FreeNode, which counts a node free: NodeAllocs-NodeFrees drops below the number of linked nodes")
+	}
 	// FreeNode counts the free
 	us := p.statUpdates(freeNode)
 	c.Check(len(find(us, "nodeFrees")) == 1 && find(us, "nodeFrees")[0].delta == "+1", freeNode, nil, "FreeNode counts one free", "allocations minus frees no longer equals the number of live node blocks")
